@@ -138,6 +138,11 @@ NP_MODELS = {
 }
 
 
+# methods that change a list in place: modelled in Evaluator._list_method
+LIST_MUTATORS = ('append', 'extend', 'insert', 'reverse', 'sort', 'pop',
+                 'remove', 'clear')
+
+
 class _Opaque:
     def __repr__(self):
         return 'OPAQUE'
@@ -401,6 +406,8 @@ class Evaluator:
             if isinstance(recv, str) and f.attr in ('lower', 'upper',
                                                     'strip') and not args:
                 return getattr(recv, f.attr)()
+            if isinstance(recv, list) and f.attr in LIST_MUTATORS:
+                return self._list_method(n, recv, f.attr, args, env)
             return OPAQUE          # logging and the like
         if isinstance(f, ast.Name) and f.id in ('all', 'any') and \
                 len(n.args) == 1:
@@ -421,6 +428,51 @@ class Evaluator:
             except Exception:
                 raise Unsupported('builtin call %s' % ast.unparse(n))
         return OPAQUE
+
+    def _list_method(self, n, recv, attr, args, env):
+        """In-place methods of a list the evaluator built itself (values are
+        Python lists and aliases share the object, as in the language).  A
+        module-level literal table is never mutated (it is shared between
+        evaluations); a mutator without a model is an analysis error, never
+        silently ignored."""
+        if any(recv is v for v in self.g.values()):
+            raise Unsupported('in-place change of a module-level table: %s'
+                              % ast.unparse(n))
+        if n.keywords and not (attr == 'sort' and all(
+                k.arg == 'reverse' for k in n.keywords)):
+            raise Unsupported('list method %s' % ast.unparse(n))
+        if attr == 'append' and len(args) == 1:
+            recv.append(args[0])
+            return None
+        if attr == 'extend' and len(args) == 1:
+            if args[0] is OPAQUE or not isinstance(args[0], (list, tuple)):
+                raise Unsupported('extend by an undetermined value')
+            recv.extend(args[0])
+            return None
+        if attr == 'insert' and len(args) == 2 and isinstance(args[0], int) \
+                and not isinstance(args[0], bool):
+            recv.insert(args[0], args[1])
+            return None
+        if attr == 'reverse' and not args:
+            recv.reverse()
+            return None
+        if attr == 'sort' and not args:
+            kw = {k.arg: self.ev(k.value, env) for k in n.keywords}
+            if any(v is OPAQUE for v in recv) or any(
+                    not isinstance(v, bool) for v in kw.values()):
+                raise Unsupported('sort of undetermined values')
+            try:
+                recv.sort(**kw)
+            except TypeError:
+                raise Unsupported('sort of incomparable values')
+            return None
+        if attr == 'pop' and len(args) <= 1 and all(
+                isinstance(a, int) and not isinstance(a, bool) for a in args):
+            try:
+                return recv.pop(*args)
+            except IndexError:
+                raise Raised(n)
+        raise Unsupported('list method %s' % ast.unparse(n))
 
     # -- statements ---------------------------------------------------------
     def bind(self, tgt, val, env):
